@@ -1,7 +1,7 @@
 (* C04: every operation of the model preserves the representation invariant whenever it returns;
    by induction, so does every history. *)
-From Tetl Require Import Lib.Base Lib.Arr C08.Model C04.Model C04.Inv.
-Require Tetl.C06a.Model Tetl.C06a.RotateProof.
+From Tetl Require Import Lib.Base Lib.Arr C08.Model C04.Model C04.Spec C04.Inv C04.CstrFacts.
+Require Tetl.C06a.Model Tetl.C06a.Spec Tetl.C06a.RotateProof Tetl.C06a.P1_RemoveIf.
 From Coq Require Import ZifyBool.
 Local Open Scope Z_scope.
 Ltac Zify.zify_post_hook ::= Z.to_euclidean_division_equations.
@@ -279,6 +279,202 @@ Proof.
   unfold zlen in *. rewrite app_length, firstn_length, skipn_length. lia.
 Qed.
 
+(** * the remaining overloads: compositions of the operations above *)
+Lemma other_str_inv s src o : inv s -> other_str s src = Ok o -> inv o /\ cap o = cap s /\ ckind o = ckind s.
+Proof. intros (Hc & _) H. unfold other_str in H. apply ctor_ptr_inv in H; [exact H|exact Hc]. Qed.
+
+Lemma c08_substr_inv v pos count sub : C08.Model.substr_m v pos count = Ok sub ->
+  pos <= vlen v /\ sub = mkview (vbuf v) (voff v + pos) (min_sz count (sz (vlen v - pos))).
+Proof.
+  unfold C08.Model.substr_m. destruct (pos <=? vlen v) eqn:E; intros H; inversion H. split; [lia|reflexivity].
+Qed.
+
+Lemma strlen_szt a : cstr_arg_ok a -> exists l, s_cstr a = Some l /\ strlen_m (arr_view a) = Ok (zlen l) /\ szt (zlen l).
+Proof.
+  intros Ha. pose proof Ha as (Hn & Hb). destruct (s_cstr a) as [l|] eqn:E; [|contradiction].
+  destruct (strlen_ok a l Ha E) as (E1 & _ & Hr). exists l. split; [reflexivity|]. split; [exact E1|]. unfold szt. lia.
+Qed.
+
+Lemma append_cstr_keeps s a s' : inv s -> cstr_arg_ok a -> append_cstr_m s a = Ok s' -> keeps s s'.
+Proof.
+  intros I Ha H. destruct (strlen_szt a Ha) as (l & _ & E & Hl). unfold append_cstr_m in H. rewrite E in H. cbn [rbind] in H.
+  eapply append_ptr_keeps; eassumption.
+Qed.
+
+Lemma append_str_keeps s src s' : inv s -> append_str_m s src = Ok s' -> keeps s s'.
+Proof.
+  intros I H. unfold append_str_m in H. destruct (other_str s src) as [o| | |]; cbn [rbind] in H; try discriminate.
+  eapply append_range_keeps; eassumption.
+Qed.
+
+Lemma append_str_sub_keeps s src pos count s' : inv s -> append_str_sub_m s src pos count = Ok s' -> keeps s s'.
+Proof.
+  intros I H. unfold append_str_sub_m in H. destruct (other_str s src) as [o| | |]; cbn [rbind] in H; try discriminate.
+  destruct (substr_m o pos count) as [sub| | |]; cbn [rbind] in H; try discriminate.
+  eapply append_range_keeps; eassumption.
+Qed.
+
+Lemma append_view_sub_keeps s src pos count s' : inv s -> szt count ->
+  append_view_sub_m s src pos count = Ok s' -> keeps s s'.
+Proof.
+  intros I Hc H. unfold append_view_sub_m in H.
+  destruct (C08.Model.substr_m (arr_view src) pos count) as [sub| | |] eqn:E; cbn [rbind] in H; try discriminate.
+  apply c08_substr_inv in E as (_ & ->). cbn [vlen] in H.
+  apply append_ptr_keeps in H; [tauto|exact I|]. apply min_sz_szt; [exact Hc|apply sz_szt].
+Qed.
+
+Lemma assign_cstr_keeps s a s' : inv s -> assign_cstr_m s a = Ok s' -> keeps s s'.
+Proof.
+  intros I H. pose proof I as (Hc & _). unfold assign_cstr_m in H.
+  destruct (strlen_m (arr_view a)) as [len| | |]; cbn [rbind] in H; try discriminate.
+  apply ctor_ptr_inv in H; [|exact Hc]. unfold keeps. tauto.
+Qed.
+
+Lemma assign_str_sub_keeps s src pos count s' : inv s -> assign_str_sub_m s src pos count = Ok s' -> keeps s s'.
+Proof.
+  intros I H. unfold assign_str_sub_m in H. destruct (other_str s src) as [o| | |] eqn:E; cbn [rbind] in H; try discriminate.
+  destruct (other_str_inv s src o I E) as (Io & Co & Ko).
+  destruct (substr_keeps o pos count s' Io H) as (I' & C' & K'). unfold keeps. split; [exact I'|]. split; congruence.
+Qed.
+
+Lemma assign_view_sub_keeps s src pos count s' : inv s -> assign_view_sub_m s src pos count = Ok s' -> keeps s s'.
+Proof.
+  intros I H. pose proof I as (Hc & _). unfold assign_view_sub_m in H.
+  destruct (C08.Model.substr_m (arr_view src) pos count) as [sub| | |]; cbn [rbind] in H; try discriminate.
+  apply ctor_ptr_inv in H; [|exact Hc]. unfold keeps. tauto.
+Qed.
+
+Lemma insert_cstr_keeps s index a s' : inv s -> szt index -> cstr_arg_ok a -> insert_cstr_m s index a = Ok s' -> keeps s s'.
+Proof.
+  intros I Hi Ha H. destruct (strlen_szt a Ha) as (l & _ & E & Hl). unfold insert_cstr_m in H.
+  destruct (index >? get_size s); [discriminate|]. rewrite E in H. cbn [rbind] in H.
+  exact (insert_impl_keeps _ _ _ _ _ I Hi Hl H).
+Qed.
+
+Lemma insert_str_sub_keeps s index src indexStr count s' : inv s -> szt index -> szt count ->
+  insert_str_sub_m s index src indexStr count = Ok s' -> keeps s s'.
+Proof.
+  intros I Hi Hc H. unfold insert_str_sub_m in H. destruct (index >? get_size s); [discriminate|].
+  destruct (C08.Model.substr_m (arr_view src) indexStr count) as [sub| | |] eqn:E; cbn [rbind] in H; try discriminate.
+  apply c08_substr_inv in E as (_ & ->). cbn [vlen] in H.
+  eapply insert_impl_keeps; [exact I|exact Hi| |exact H]. apply min_sz_szt; [exact Hc|apply sz_szt].
+Qed.
+
+(** * free erase / erase_if: remove_if on the character range, then erase(it, end()) *)
+Lemma znth_app_tail (p t : list Z) i : zlen p <= i -> znth (p ++ t) i = znth t (i - zlen p).
+Proof. unfold znth, zlen. intros H. rewrite app_nth2 by lia. f_equal. lia. Qed.
+
+(* replacing the characters [0, size) by an equally long list keeps size, terminator and invariant *)
+Lemma inv_replace_contents s l' : inv s -> length l' = length (contents s) ->
+  let b := l' ++ skipn (Z.to_nat (get_size s)) (buf s) in
+  keeps s (with_buf s b) /\ get_size (with_buf s b) = get_size s /\ contents (with_buf s b) = l'.
+Proof.
+  intros I Hlen b. pose proof I as (Hc & Hl & Hs & Ht).
+  assert (Hcl : zlen (contents s) = get_size s).
+  { unfold contents, zlen in *. rewrite firstn_length. lia. }
+  assert (Hl' : zlen l' = get_size s) by (unfold zlen in *; lia).
+  assert (Hbuf : buf s = contents s ++ skipn (Z.to_nat (get_size s)) (buf s)).
+  { unfold contents. symmetry. apply firstn_skipn. }
+  assert (Htail : forall j, get_size s <= j -> znth b j = znth (buf s) j).
+  { intros j Hj. unfold b. rewrite Hbuf at 2. rewrite !znth_app_tail by lia. rewrite Hl', Hcl. reflexivity. }
+  destruct (inv_with_buf s b I) as (K & G).
+  - unfold b. unfold zlen in *. rewrite app_length, skipn_length. lia.
+  - apply Htail. lia.
+  - rewrite Htail by lia. exact Ht.
+  - split; [exact K|]. split; [exact G|]. unfold contents. rewrite G. cbn [with_buf buf]. unfold b.
+    rewrite firstn_app. replace (Z.to_nat (get_size s) - length l')%nat with O by (unfold zlen in *; lia).
+    cbn [firstn]. rewrite app_nil_r. apply firstn_all2. unfold zlen in *. lia.
+Qed.
+
+Lemma filter_len_le (f : Z -> bool) (l : list Z) : (length (filter f l) <= length l)%nat.
+Proof. induction l as [|x l IH]; cbn [filter length]; [lia|]. destruct (f x); cbn [length]; lia. Qed.
+
+Lemma free_erase_if_keeps p s s' n : inv s -> free_erase_if_m p s = Ok (s', n) -> keeps s s'.
+Proof.
+  intros I H. unfold free_erase_if_m in H.
+  destruct (C06a.P1_RemoveIf.remove_if_correct p (contents s)) as (l' & E & _ & Hlen).
+  rewrite E in H. cbn [rbind fst snd] in H.
+  destruct (inv_replace_contents s l' I Hlen) as (K & G & _).
+  destruct (erase_range_m _ _ _) as [s1| | |] eqn:E1; cbn [rbind] in H; try discriminate.
+  inversion H; subst s1 n; clear H.
+  eapply keeps_trans; [exact K|].
+  pose proof (filter_len_le (fun x => negb (p x)) (contents s)) as Hf.
+  pose proof I as (Hc & Hl & Hs & _). unfold cap_ok in Hc.
+  assert (Hcl : length (contents s) = Z.to_nat (get_size s)).
+  { unfold contents, zlen in *. rewrite firstn_length. lia. }
+  eapply erase_range_keeps; [apply K| | |exact E1]; unfold szt.
+  - unfold C06a.Spec.remove_if_spec. lia.
+  - apply sz_szt.
+Qed.
+
+(* replace — the recorded in-place overwrite — keeps the invariant: a run of at most
+   min(count, size() - pos) characters written at pos stays below size() *)
+Lemma rep_n_bound s pos count avail : inv s -> 0 <= pos <= get_size s -> rep_n s pos count avail <= get_size s - pos.
+Proof.
+  intros (Hc & _ & Hs & _) Hp. unfold cap_ok in Hc. unfold rep_n, min_sz. rewrite sz_id by lia.
+  destruct (get_size s - pos <? count) eqn:E1; destruct (avail <? _) eqn:E2; lia.
+Qed.
+
+Lemma overwrite_keeps s pos x b : inv s -> 0 <= pos -> pos + zlen x <= get_size s ->
+  write_range (buf s) pos x = Ok b -> keeps s (with_buf s b).
+Proof.
+  intros I Hp Hend E. pose proof I as (Hc & Hl & Hs & Ht).
+  destruct (inv_with_buf s b I (write_range_len _ _ _ _ E)) as (K & _).
+  - apply (write_range_other _ _ _ _ _ E); lia.
+  - rewrite (write_range_other _ _ _ _ _ E) by lia. exact Ht.
+  - exact K.
+Qed.
+
+Lemma zlen_firstn_le (l : list Z) n : zlen (firstn (Z.to_nat n) l) <= Z.max 0 n.
+Proof. unfold zlen. rewrite firstn_length. lia. Qed.
+
+Lemma replace_keeps s pos count src s' : inv s -> 0 <= pos -> replace_m s pos count src = Ok s' -> keeps s s'.
+Proof.
+  intros I Hp H. pose proof I as (_ & _ & Hs & _). unfold replace_m in H.
+  destruct (pos <=? get_size s) eqn:E1; [|discriminate].
+  destruct (write_range _ _ _) as [b| | |] eqn:E3; cbn [rbind] in H; try discriminate.
+  inversion H; subst s'; clear H. eapply overwrite_keeps; [exact I|exact Hp| |exact E3].
+  pose proof (rep_n_bound s pos count (zlen src) I ltac:(lia)). pose proof (zlen_firstn_le src (rep_n s pos count (zlen src))). lia.
+Qed.
+
+Lemma replace_ptr_keeps s pos count src count2 s' : inv s -> 0 <= pos ->
+  replace_ptr_m s pos count src count2 = Ok s' -> keeps s s'.
+Proof.
+  intros I Hp H. pose proof I as (_ & _ & Hs & _). unfold replace_ptr_m in H.
+  destruct (pos <=? get_size s) eqn:E1; [|discriminate].
+  destruct (take_chk _ _) as [l| | |] eqn:E2; cbn [rbind] in H; try discriminate.
+  apply take_chk_inv in E2 as (_ & ->).
+  destruct (write_range _ _ _) as [b| | |] eqn:E3; cbn [rbind] in H; try discriminate.
+  inversion H; subst s'; clear H. eapply overwrite_keeps; [exact I|exact Hp| |exact E3].
+  pose proof (rep_n_bound s pos count count2 I ltac:(lia)). pose proof (zlen_firstn_le src (rep_n s pos count count2)). lia.
+Qed.
+
+Lemma replace_cstr_keeps s pos count a s' : inv s -> 0 <= pos ->
+  replace_cstr_m s pos count a = Ok s' -> keeps s s'.
+Proof.
+  intros I Hp H. pose proof I as (_ & _ & Hs & _). unfold replace_cstr_m in H.
+  destruct (pos <=? get_size s) eqn:E1; [|discriminate].
+  destruct (strlen_m _) as [len| | |]; cbn [rbind] in H; try discriminate.
+  destruct (take_chk _ _) as [l| | |] eqn:E2; cbn [rbind] in H; try discriminate.
+  apply take_chk_inv in E2 as (_ & ->).
+  destruct (write_range _ _ _) as [b| | |] eqn:E3; cbn [rbind] in H; try discriminate.
+  inversion H; subst s'; clear H. eapply overwrite_keeps; [exact I|exact Hp| |exact E3].
+  pose proof (rep_n_bound s pos count len I ltac:(lia)). pose proof (zlen_firstn_le a (rep_n s pos count len)). lia.
+Qed.
+
+Lemma replace5_keeps s pos count src pos2 count2 s' : inv s -> 0 <= pos ->
+  replace5_m s pos count src pos2 count2 = Ok s' -> keeps s s'.
+Proof.
+  intros I Hp H. pose proof I as (_ & _ & Hs & _). unfold replace5_m in H.
+  destruct (pos <=? get_size s) eqn:E1; [|discriminate].
+  destruct (pos2 <=? zlen src); [|discriminate].
+  destruct (write_range _ _ _) as [b| | |] eqn:E3; cbn [rbind] in H; try discriminate.
+  inversion H; subst s'; clear H. eapply overwrite_keeps; [exact I|exact Hp| |exact E3].
+  set (n := rep_n s pos count _).
+  pose proof (rep_n_bound s pos count (min_sz count2 (sz (zlen src - pos2))) I ltac:(lia)). fold n in H.
+  pose proof (zlen_firstn_le (skipn (Z.to_nat pos2) src) n). lia.
+Qed.
+
 (** * every step, every history *)
 Definition op_wf (o : op) : Prop :=
   match o with
@@ -293,6 +489,14 @@ Definition op_wf (o : op) : Prop :=
   | OAssignPtr _ count => szt count
   | OAssignFill count _ => szt count
   | OSubstr pos count => szt pos /\ szt count
+  | OAppendCstr a | OAssignCstr a => cstr_arg_ok a
+  | OAppendStr _ => True
+  | OAppendStrSub _ pos count | OAppendViewSub _ pos count
+  | OAssignStrSub _ pos count | OAssignViewSub _ pos count => szt pos /\ szt count
+  | OInsertCstr index a => szt index /\ cstr_arg_ok a
+  | OInsertStrSub index _ indexStr count => szt index /\ szt indexStr /\ szt count
+  | OErasePos pos => szt pos
+  | OFreeErase _ | OFreeEraseIf _ => True
   end.
 
 Lemma step_keeps s o s' : inv s -> op_wf o -> step s o = Ok s' -> keeps s s'.
@@ -305,7 +509,8 @@ Proof.
   - eapply append_ptr_keeps; eassumption.
   - eapply append_range_keeps; eassumption.
   - destruct W as (W1 & W2). exact (insert_impl_keeps _ _ _ _ _ I W1 W2 H).
-  - destruct W as (W1 & W2). unfold insert_fill_m in H. exact (insert_fill_loop_keeps _ _ _ _ _ I W1 H).
+  - destruct W as (W1 & W2). unfold insert_fill_m in H. destruct (index >? get_size s); [discriminate|].
+    exact (insert_fill_loop_keeps _ _ _ _ _ I W1 H).
   - destruct W as (W1 & W2). exact (erase_keeps _ _ _ _ I W1 W2 H).
   - destruct W as (W1 & W2). exact (erase_range_keeps _ _ _ _ I W1 W2 H).
   - eapply resize_keeps; eassumption.
@@ -316,6 +521,20 @@ Proof.
     apply ctor_ptr_inv in E as (Io & Co & _); [|exact Hc].
     destruct (swap_m s o) as [[a' b']| | |] eqn:E2; cbn [rbind fst] in H; try discriminate.
     inversion H; subst. eapply swap_keeps; eassumption.
+  - eapply append_cstr_keeps; eassumption.
+  - eapply append_str_keeps; eassumption.
+  - eapply append_str_sub_keeps; eassumption.
+  - destruct W as (W1 & W2). eapply append_view_sub_keeps; eassumption.
+  - eapply assign_cstr_keeps; eassumption.
+  - eapply assign_str_sub_keeps; eassumption.
+  - eapply assign_view_sub_keeps; eassumption.
+  - destruct W as (W1 & W2). exact (insert_cstr_keeps _ _ _ _ I W1 W2 H).
+  - destruct W as (W1 & W2 & W3). exact (insert_str_sub_keeps _ _ _ _ _ _ I W1 W3 H).
+  - unfold erase_pos_m in H. eapply erase_range_keeps; [exact I|exact W| |exact H]. unfold szt. lia.
+  - destruct (free_erase_if_m _ s) as [[s1 n]| | |] eqn:E; cbn [rbind fst] in H; try discriminate.
+    inversion H; subst. eapply free_erase_if_keeps; eassumption.
+  - destruct (free_erase_if_m _ s) as [[s1 n]| | |] eqn:E; cbn [rbind fst] in H; try discriminate.
+    inversion H; subst. eapply free_erase_if_keeps; eassumption.
 Qed.
 
 Theorem run_keeps : forall ops s s', inv s -> Forall op_wf ops -> run s ops = Ok s' -> keeps s s'.
